@@ -207,6 +207,24 @@ def c06(tier, seed):
     ]
 
 
+def c17(tier, seed):
+    return [
+        {"type": "mc", "module": "MC_Approx", "constants": {"MaxLen": 3, "V": 2}, "workers": 4},
+        CALIB,
+        {"type": "i2s", "name": "drive approx", "spec": "Trace_Approx", "cmd": ["drive", "approx", "{seed}", q(tier, 6, 60), "{trace}"],
+         "min_tally": [5000, 2000, 100, 500]},
+    ]
+
+
+def c18(tier, seed):
+    return [
+        {"type": "i2s", "name": "drive serde (serde_json, serde_cbor)", "spec": "Trace_Serde", "cmd": ["drive", "serde", "{seed}", q(tier, 60, 600), "{trace}"],
+         "min_tally": [3000, 1500, 300, 0]},
+        {"type": "i2s", "name": "drive serde with the borsh feature (json, cbor, borsh)", "spec": "Trace_Serde", "needs_borsh": True,
+         "cmd": ["drive", "serde", "{seed}", q(tier, 60, 600), "{trace}"], "min_tally": [4000, 2000, 400, 1500]},
+    ]
+
+
 ARITH_ASSUME = [
     "libm ln within 1 ulp (glibc claims < 1 ulp)",
     "inputs whose partial terms or powers of x leave [2^-1000, 2^1000] are out of scope and skipped (counted by the tallies)",
@@ -219,6 +237,13 @@ ORDER_ASSUME = [
 ]
 
 PLANS = {
+    "C17": {"claim": "The lifting of the scalar relations to (shape, numbers) is a TLA+ module; its stated consequences (reflexive, symmetric, implied by equality, monotone in the tolerance, falsified by any single perturbation beyond the tolerance, never across shapes) are model-checked on small integer shapes; on real executions every implementing type (PolyN, Poly0..8, Log, IntOfLog, IntOfLogPoly4, Segment, Piecewise) is compared with itself, with every single position (coefficient, k, u, breakpoint) perturbed below and above five tolerance pairs, and across different piece counts / lengths; TLC recomputes both relations number by number with the approx crate's scalar rule over rounded f64 operations and both argument orders must agree with it.",
+            "steps": c17, "level": "model_checking", "rule": "tallies = [events judged, expected-false with equal shapes, shape mismatches, expected-true with a # b]",
+            "assumptions": ["finite numbers and tolerances only", "the scalar rule is transcribed from approx 0.5.1"]},
+    "C18": {"claim": "Round trips of every serializable type (Knot, Poly0..8, Log, IntOfLog, IntOfLogPoly4, Segment, Piecewise with 0..20 segments) through serde_json (finite contents), serde_cbor (all non-NaN contents) and, in a second build with the dependency's borsh feature, borsh; contents drawn from -0.0, subnormals, +-MAX, +-MIN_POSITIVE, infinities and random bits; TLC compares the flattened bit patterns and shapes before and after. There is no state space here: the specification contributes the flattening discipline and the acceptance rule only.",
+            "steps": c18, "level": "exploration", "technique": "TLA+ trace validation of recorded round trips (no model checking: the property has no state space)",
+            "rule": "distinct_nontrivial = round trips whose contents include a special number (tally 12); tallies = [round trips, with special numbers, with >= 2 segments, borsh]",
+            "assumptions": ["serde_json built with float_roundtrip (its default float parser is not bit-exact, which is a property of that crate, not of the library)"]},
     "C04": {"claim": "Kruger's construction is transcribed formula by formula into Spline.tla; over exact rationals TLC checks on every knot set of a grid (monotone, oscillating, plateaued, collinear; also offset 100 from the origin) that each cubic interpolates both knots with exactly the prescribed slopes (harmonic mean / zero / end rule) and that it is monotone (exact minimum of the derivative quadratic from end values and vertex) and stays inside the knot ordinates (Bernstein hull), flat at extrema, linear on collinear data -- with zero tolerance. On real executions TLC recomputes the exact Kruger slopes of the float knots and judges the returned coefficients: interpolation, end slopes, C1, monotonicity (exact quadratic minimum, no sampling of x), no overshoot (Bernstein control values), within KAPPA=64 * 2^-53 * the magnitudes of the construction's intermediate terms.", "steps": c04, "parallel": 8,
             "rule": "tallies = [spline events in scope, of which with an interior extremum or plateau]", "assumptions": ARITH_ASSUME + ["KAPPA = 64 (measured worst case 2.2)"]},
     "C05": {"claim": "Kruger's construction is transcribed formula by formula into Spline.tla; over exact rationals TLC checks on every knot set of a grid (monotone, oscillating, plateaued, collinear; also offset 100 from the origin) that each cubic interpolates both knots with exactly the prescribed slopes (harmonic mean / zero / end rule) and that it is monotone (exact minimum of the derivative quadratic from end values and vertex) and stays inside the knot ordinates (Bernstein hull), flat at extrema, linear on collinear data -- with zero tolerance. On real executions TLC recomputes the exact Kruger slopes of the float knots and judges the returned coefficients: interpolation, end slopes, C1, monotonicity (exact quadratic minimum, no sampling of x), no overshoot (Bernstein control values), within KAPPA=64 * 2^-53 * the magnitudes of the construction's intermediate terms.", "steps": c05, "parallel": 8,
